@@ -157,6 +157,8 @@ func spawn(dir string) (*child, error) {
 	return &child{cmd: cmd, in: in, out: bufio.NewReaderSize(pr, 1<<16), outF: pr, stderr: cw}, nil
 }
 
+var errNoAnswer = errors.New("child does not answer (60s)")
+
 func (c *child) call(o op) (res, error) {
 	b, _ := json.Marshal(o)
 	if _, err := c.in.Write(append(b, '\n')); err != nil {
@@ -183,7 +185,7 @@ func (c *child) call(o op) (res, error) {
 		return r, nil
 	case <-time.After(60 * time.Second):
 		_ = c.cmd.Process.Kill()
-		return res{}, errors.New("child does not answer (60s)")
+		return res{}, errNoAnswer
 	}
 }
 
@@ -246,6 +248,9 @@ func runScript(tr *vio.Trace, h int, sc script) {
 			// the process died in this step
 			c.close()
 			r = emptyRes("crash")
+			if errors.Is(err, errNoAnswer) {
+				r.Err = "infra" // an overloaded machine is no verdict about the package
+			}
 			r.Panic = err.Error() + "\n" + firstLines(c.stderr.String(), 14)
 			tr.EmitRaw(map[string]any{"e": "op", "h": h, "op": o, "res": r})
 			tr.Flush()
